@@ -151,9 +151,15 @@ Lemma entry_Exit_once_ok err sc :
   entry_Exit_once err sc =
   [a0 20] ++ (if err =? 0 then [] else [aZ 42 err]) ++ [a0 43] ++ (if sc =? 0 then [] else [a0 45]).
 Proof. unfold entry_Exit_once, a0, aZ. cbv zeta. leaf_cases. Qed.
-(* a handler's error does not stop the loop *)
-Lemma entry_Exit_handler_step_ok herr : entry_Exit_handler_step herr = (LContinue tt, [a0 44]).
+(* the handler loop: every handler goes through runExitHandler (a9e6cc9), nothing leaves the loop *)
+Lemma entry_Exit_handler_step_ok : entry_Exit_handler_step = (LContinue tt, [a0 48]).
 Proof. unfold entry_Exit_handler_step, a0. cbv zeta. leaf_cases. Qed.
+(* runExitHandler: a recover of its own is deferred BEFORE the handler is called; the handler's error
+   is only logged; the deferred function recovers (and logs) *)
+Lemma entry_runExitHandler_ok herr : entry_runExitHandler herr = [a0 20; a0 44].
+Proof. unfold entry_runExitHandler, a0. cbv zeta. leaf_cases. Qed.
+Lemma entry_runExitHandler_recover_ok pv : entry_runExitHandler_recover pv = [a0 30].
+Proof. unfold entry_runExitHandler_recover, a0. cbv zeta. leaf_cases. Qed.
 (* its deferred function: recover, exited := 1, then the context goes back to the pool -
    whether or not something was recovered *)
 Lemma entry_Exit_deferred_ok pv sc :
@@ -579,27 +585,34 @@ Proof.
   destruct (x_blk x); cbn [orb Z.eqb]; [reflexivity|]. unfold a0. apply gen_run_done_ok; assumption.
 Qed.
 
-(* the handler loop: every handler is called, in order, whatever error it returns; a panicking
-   handler leaves the loop (the model's run_handlers; HErr = returns an error, HOk = nil) *)
+(* the handler loop: every handler is called, in order, whatever it does - an error is logged, a
+   panic is recovered by runExitHandler's own deferred function (it is deferred before the call) and
+   the loop goes on: the model's run_handlers never reports a panic (HErr = returns an error) *)
 Fixpoint gen_run_handlers (hs : list (Z * hbeh)) (lg : list call) : list call * bool :=
   match hs with
   | [] => (lg, false)
   | (id, b) :: r =>
       let lg' := LHandler id :: lg in
-      match b with
-      | HPanic => (lg', true)
-      | _ => match entry_Exit_handler_step (match b with HErr => 1 | _ => 0 end) with
-             | (LContinue _, [(44, [])]) => gen_run_handlers r lg'
-             | _ => (lg', false)
-             end
+      match entry_Exit_handler_step with
+      | (LContinue _, [(48, [])]) =>
+          match entry_runExitHandler (match b with HErr => 1 | _ => 0 end) with
+          | [(20, []); (44, [])] =>     (* defer recover; handler(e, ctx): a panic of the handler is caught here *)
+              match b, entry_runExitHandler_recover (match b with HPanic => 1 | _ => 0 end) with
+              | _, [(30, [])] => gen_run_handlers r lg'
+              | _, _ => (lg', true)
+              end
+          | _ => (lg', true)            (* no recover in place before the call: a panic would leave the loop *)
+          end
+      | _ => (lg', false)
       end
   end.
 
 Theorem gen_run_handlers_ok hs : forall lg, gen_run_handlers hs lg = run_handlers hs lg.
 Proof.
   induction hs as [|[id b] r IH]; intros lg; [reflexivity|].
-  cbn [gen_run_handlers run_handlers]. rewrite entry_Exit_handler_step_ok. unfold a0.
-  destruct b; try apply IH; reflexivity.
+  cbn [gen_run_handlers run_handlers].
+  rewrite entry_Exit_handler_step_ok, entry_runExitHandler_ok, entry_runExitHandler_recover_ok. unfold a0.
+  destruct b; apply IH.
 Qed.
 
 (* ---------------------------------------------------------------------------------- *)
